@@ -613,8 +613,8 @@ int main(int argc, char **argv) {
         int nconn = (int) r.range(1, 3);
         for (int i = 0; i < nconn; ++i) {
             ConnSpec cn; cn.id = 101 + i; cn.orth = false;
-            // an endpoint exactly ON the outline of a routing polygon (strictly inside one of its sides, not strictly inside
-            // any other polygon): outside every shape, but the sweep's touching rule applies to it
+            // an endpoint exactly ON the outline of a routing polygon (strictly inside one of its sides, touching no other
+            // polygon): outside every shape, but the sweep's touching rule applies to it
             long lastPoly = -1;
             auto onOutline = [&](double &ox, double &oy, long usePoly = -1) {
                 for (int t = 0; t < 40; ++t) {
@@ -627,8 +627,11 @@ int main(int argc, char **argv) {
                     double px, py;
                     if (side < 2) { if (ny < 2) continue; px = side == 0 ? lx : hx; py = ly + (double) r.range(1, ny - 1) / 2.0; }
                     else { if (nx < 2) continue; py = side == 2 ? ly : hy; px = lx + (double) r.range(1, nx - 1) / 2.0; }
+                    // ... and not on the outline of a second polygon either: where two touching shapes share a piece of boundary,
+                    // two collinear status edges pass through the point and the sweep's verdict depends on the rounding of
+                    // their intersection distances at earlier sweep angles (see the fixer report; kept out of the plan)
                     bool ok = true;
-                    for (auto &o : rp) if (vs::inClosedD(o, px, py, -1e-6)) ok = false;
+                    for (long oi = 0; oi < (long) rp.size(); ++oi) if (oi != qi && vs::inClosedD(rp[(size_t) oi], px, py, 1e-6)) ok = false;
                     if (ok) { ox = px; oy = py; return true; }
                 }
                 return false;
